@@ -6,7 +6,8 @@ import re
 
 from hypothesis import strategies as st
 
-from pbt import common, gens, libside
+from pbt import common, gens, libside, refsem
+from pbt.refsem import fkey
 from pbt.drive import EnumStage, Err, HypStage, Violation, import_repo, lib
 
 ID = "C19"
@@ -31,7 +32,7 @@ ASSUMPTIONS = [
 ANSI = re.compile(r"\x1b\[[0-9;]*m")
 PRINTABLE = set("0123456789abcdefghijklmnopqrstuvwxyzABCDEFGHIJKLMNOPQRSTUVWXYZ!\"#$%&'()*+,-./:;<=>?@[\\]^_`{|}~ ")
 LENGTHS = [0, 1, 15, 16, 17, 31, 32, 33]
-ENDIANS = ["little", "big", "network", "<", ">", "!"]
+ENDIANS = ["little", "big", "network", "<", ">", "!", "@", "="]
 
 
 def parse_hexdump(text, prefix, offset, nbytes):
@@ -83,14 +84,14 @@ def parse_hexdump(text, prefix, offset, nbytes):
 @st.composite
 def hexdump_case(draw):
     m = import_repo()
-    n = draw(st.one_of(st.sampled_from(LENGTHS), st.integers(0, 80)))
+    n = draw(st.one_of(st.sampled_from(LENGTHS), st.integers(0, 80), st.sampled_from([255, 256, 257, 4095, 4096, 4097]), st.integers(81, 600)))
     data = draw(st.binary(min_size=n, max_size=n))
     if draw(st.booleans()):
         data = bytes((b % 95) + 32 if i % 3 else b for i, b in enumerate(data))
     offset = draw(st.one_of(st.just(0), st.integers(0, 4096), st.sampled_from([0xFFFFFFF0, 1 << 32, (1 << 40) + 5])))
     prefix = draw(st.sampled_from(["", "", "  ", "> ", "0x", "dead: ", "\t", "{", "}", "{0}| ", "{{ctx}} ", "%s %d ", "\\x ", "{!r:>4}", "é§ "]))
     colours = ["COLOR_RED", "COLOR_GREEN", "COLOR_BG_BLUE", "COLOR_BG_WHITE", "COLOR_NORMAL", ""]
-    pal = draw(st.lists(st.tuples(st.one_of(st.integers(0, 3), st.integers(0, 20), st.sampled_from([0, 8, 16, 17])), st.sampled_from(colours)), max_size=6))
+    pal = draw(st.lists(st.tuples(st.one_of(st.integers(0, 3), st.integers(0, 20), st.sampled_from([0, 8, 16, 17]), st.integers(0, 300)), st.sampled_from(colours)), max_size=6))
     return {"hexdump": True, "data": data.hex(), "offset": offset, "prefix": prefix, "palette": [list(p) for p in pal]}
 
 
@@ -153,6 +154,13 @@ def _run_hexdump(case, ctx, m):
         allowed_codes |= set(ANSI.findall(c))
     if not used <= allowed_codes:
         raise Violation("foreign-colour", f"{what}: codes {used - allowed_codes} are not from the palette")
+    import contextlib
+
+    buf = io.StringIO()
+    with contextlib.redirect_stdout(buf):
+        ret = lib(m.hexdump, data, list(pal), off, prefix)
+    if isinstance(ret, Err) or ret is not None or buf.getvalue() != col + "\n":
+        raise Violation("hexdump-print-differs", f"{what}: the default (print) form printed {buf.getvalue()!r} and returned {ret!r}; the string form is {col!r}")
     ctx.count("hexdump:len%16=" + ("0" if len(data) % 16 == 0 else "nz"))
     tot = 0
     crossing = False
@@ -208,9 +216,29 @@ def _run_dumpstruct(case, ctx, m):
                     pos = listed.index(nm, pos) + 1
                 except ValueError:
                     raise Violation("dumpstruct-field-missing", f"{what}: field {nm!r} not listed in declaration order; listed {listed}: {common.describe(case)}") from None
+            # ... WITH ITS VALUE: integer members (plain, bit-field, LEB128) are shown in hexadecimal
+            root_t = ref["sem"].res(common.ROOT)
+            for i_, f_ in enumerate(root_t["fields"]):
+                ft_ = ref["sem"].res(f_["t"])
+                if f_.get("name") and (f_.get("bits") and ft_["k"] == "s" or (ft_["k"] == "s" and refsem.SCALARS[ft_["n"]][0] in ("int", "leb"))):
+                    line = f"- {T.__fields__[i_]._name}: {hex(ref['want'][fkey(f_, i_)])}"
+                    if line not in stripped.split("\n"):
+                        raise Violation("dumpstruct-value-wrong", f"{what}: expected the line {line!r}; listed lines: {[l for l in stripped.split(chr(10)) if l.startswith('- ')]}: {common.describe(case)}")
+                    ctx.count("dumpstruct:value-line-checked")
             if not color and out != stripped:
                 # observed, not claimed: color=False still emits reset codes (an empty palette is "not None")
                 ctx.count("dumpstruct:reset-codes-in-uncoloured-output")
+    # the default output form prints exactly the string form (object addresses in reprs aside)
+    import contextlib
+
+    addr = re.compile(r" at 0x[0-9a-fA-F]+")
+    for color in (False, True):
+        buf = io.StringIO()
+        with contextlib.redirect_stdout(buf):
+            ret = lib(m.dumpstruct, obj, None, off, color)
+        want_s = lib(m.dumpstruct, obj, None, off, color, "string")
+        if isinstance(ret, Err) or ret is not None or isinstance(want_s, Err) or addr.sub("", buf.getvalue()) != addr.sub("", want_s + "\n"):
+            raise Violation("dumpstruct-print-differs", f"color={color}: dumpstruct(obj, offset={off}) printed {buf.getvalue()!r} (returned {ret!r}); the string form is {want_s!r}: {common.describe(case)}")
     feats = common.model_features(ref["sem"], common.ROOT)
     for f in feats & {"bit-field", "nested-struct", "nested-union", "array", "enum", "flag", "pointer", "dynamic", "anonymous-member"}:
         ctx.count("dumpstruct:has:" + f)
@@ -224,7 +252,9 @@ def _fits(v, size):
 
 
 def _check_int(m, v, size, endian, ctx):
-    bo = {"little": "little", "<": "little"}.get(endian, "big")
+    import sys as _sys
+
+    bo = {"little": "little", "<": "little", "@": _sys.byteorder, "=": _sys.byteorder}.get(endian, "big")
     what = f"value {v} size {size} endian {endian!r}"
     nbytes = ((size or v.bit_length()) + 7) // 8
     want = v.to_bytes(nbytes, bo, signed=v < 0)
@@ -234,7 +264,25 @@ def _check_int(m, v, size, endian, ctx):
     back = lib(m.unpack, got, size, endian, v < 0)
     if isinstance(back, Err) or back != v:
         raise Violation("unpack-not-inverse", f"{what}: unpack(pack(v)) -> {back!r}")
+    # the bytes -> number direction for BOTH readings of the same bytes
+    for sg in (False, True):
+        exp = int.from_bytes(want, bo, signed=sg)
+        g2 = lib(m.unpack, want, size, endian, sg)
+        if isinstance(g2, Err) or g2 != exp:
+            raise Violation("unpack", f"{what}: unpack({want.hex()}, sign={sg}) -> {g2!r}, two's complement gives {exp}")
+        rp = lib(m.pack, exp, size, endian) if size is not None else want  # (without a size the width follows the value)
+        if isinstance(rp, Err) or rp != want:
+            raise Violation("pack", f"{what}: pack({exp}) -> {rp!r}, expected {want.hex()}")
+    if endian == "<" and v >= 0:
+        # default arguments: little endian, unsigned, size taken from the data
+        if size is not None and (lib(m.pack, v, size) != want or lib(m.unpack, want, size) != v or lib(m.unpack, want) != v):
+            raise Violation("helper-disagrees", f"{what}: pack/unpack with default endian / sign / size arguments disagree with the explicit little-endian unsigned form")
+        if size in (8, 16, 32, 64) and (lib(getattr(m, f"p{size}"), v) != want or lib(getattr(m, f"u{size}"), want) != v):
+            raise Violation("helper-disagrees", f"{what}: p{size}(v) / u{size}(b) with default arguments disagree with the explicit little-endian unsigned form")
     if size in (8, 16, 32, 64):
+        for sg in (False, True):
+            if lib(getattr(m, f"u{size}"), want, endian, sg) != int.from_bytes(want, bo, signed=sg):
+                raise Violation("helper-disagrees", f"{what}: u{size}({want.hex()}, sign={sg}) -> {lib(getattr(m, f'u{size}'), want, endian, sg)!r}")
         p = getattr(m, f"p{size}")
         u = getattr(m, f"u{size}")
         if lib(p, v, endian) != want:
